@@ -471,6 +471,9 @@ func (t *Task) query(o *Obligation, extra []string) string {
 			b.WriteString(")\n")
 		}
 	}
+	for _, x := range t.lateFacts {
+		b.WriteString("(assert " + x + ")\n")
+	}
 	for _, x := range extra {
 		b.WriteString("(assert " + x + ")\n")
 	}
